@@ -105,7 +105,11 @@ TCrash == /\ Has("crash")
           /\ oldq' = oldq \ {E.a}
           /\ olock' = [olock EXCEPT ![ObjOf[E.a]] = None]
           /\ pc' = [pc EXCEPT ![E.a] = "idle"]
-          /\ UNCHANGED <<file, fver, mem, rver, kind, left, done, doneBy, torn, lost, sawRec>>
+          \* a writer that dies after its apply step may already have done the write(2) (the hook that logs the write follows
+          \* the system call): the file holds either the old record or the applied one
+          /\ \/ UNCHANGED <<file, fver>>
+             \/ pc[E.a] = "u_applied" /\ ~TruncFirst /\ file' = mem[ObjOf[E.a]] /\ fver' = fver + 1
+          /\ UNCHANGED <<mem, rver, kind, left, done, doneBy, torn, lost, sawRec>>
           /\ Consume
 
 TNext == TCrash \/ TReset \/ TEnter \/ TLock \/ TRead \/ TApply \/ TTrunc \/ TWrite \/ TLoad \/ TSaveTrunc \/ TSaveWrite \/ TUnlock
